@@ -1,6 +1,11 @@
 package http2
 
-import "fmt"
+import (
+	"bufio"
+	"fmt"
+
+	"github.com/valyala/fasthttp"
+)
 
 // C10 — GOAWAY tells the truth and connection errors end the connection.
 
@@ -107,4 +112,123 @@ func VerifH_C10_return() {
 	vAssert(readDone, "C10.return.read-loop-returns")
 	vAssert(loopDone || !readDone, "C10.return.stream-loop-returns")
 	vCover("C10.return.done", readDone)
+}
+
+// The real Serve, with all its goroutines as tasks, over a scripted socket:
+// requests on streams 1 and 3 whose handlers return at once or are still
+// running, then one of eight connection-scoped violations (the six above, DATA
+// on a stream the peer has already ended, and a stream window pushed past
+// 2^31-1 by a SETTINGS change after a WINDOW_UPDATE to exactly 2^31-1), then a
+// request on stream 11 from a peer that has not seen the GOAWAY yet. The
+// peer then stays connected and silent, or goes away. The GOAWAY covers every
+// dispatched request and carries a code the RFC allows, nothing is dispatched
+// afterwards, no request context a handler is still running with is handed out
+// again, and Serve returns once the running handlers have finished, without
+// the peer having to hang up.
+//
+//verif:harness prop=C10,C17 unwind=300 timeout=900
+func VerifH_C10_serve() {
+	which := vRange(0, 7)
+	hold := vBool()
+	stays := vBool()
+
+	conn := &vConn{in: make(chan []byte, 4), done: make(chan struct{})}
+	conn.w.failAt = -1
+	gate := make(chan struct{}, 8)
+	started := 0
+	var running []*fasthttp.RequestCtx
+	sc := vNewServerConn()
+	sc.c = conn
+	sc.br = bufio.NewReaderSize(conn, 256)
+	sc.bw = bufio.NewWriterSize(conn, 256)
+	sc.st.maxStreams = 8
+	sc.maxHeaderList = DefaultMaxHeaderListSize
+	sc.pingInterval = -1
+	sc.h = func(ctx *fasthttp.RequestCtx) {
+		started++
+		if hold {
+			running = append(running, ctx)
+			<-gate
+		}
+		ctx.Response.SetStatusCode(200)
+		ctx.Response.SetBody([]byte("ok"))
+	}
+	result := make(chan error, 1)
+	go func() { result <- sc.Serve() }()
+
+	var wire []byte
+	wire = append(wire, vFrame(0x4, 0x0, 0, nil)...)
+	wire = append(wire, vFrame(0x1, 0x5, 1, vReqBlock('1'))...)
+	wire = append(wire, vFrame(0x1, 0x5, 3, vReqBlock('3'))...)
+	conn.in <- wire
+	vSettle()
+	before := started
+
+	var off []byte
+	var codes []ErrorCode
+	switch which {
+	case 6: // DATA on a stream the peer has half-closed (5.1)
+		off, codes = vFrame(0x0, 0x0, 1, []byte("x")), []ErrorCode{StreamClosedError, ProtocolError}
+	case 7: // stream window past 2^31-1 through SETTINGS_INITIAL_WINDOW_SIZE (6.9.2)
+		off = vFrame(0x8, 0x0, 1, []byte{0x7f, 0xff, 0x00, 0x00}) // 65535 + 0x7fff0000 = 2^31-1
+		off = append(off, vFrame(0x4, 0x0, 0, []byte{0, 4, 0, 1, 0, 0})...)
+		codes = []ErrorCode{FlowControlError}
+	default:
+		off, codes = vConnOffence(which)
+	}
+	conn.in <- off
+	vSettle()
+
+	goaway, last, code := false, uint32(0), ErrorCode(0)
+	for b := conn.w.out; len(b) >= 9; {
+		f, used, st := refParseFrame(b, 0)
+		if st != refFrOK {
+			break
+		}
+		if f.typ == 0x7 {
+			goaway, last, code = true, f.last, ErrorCode(f.code)
+		}
+		b = b[used:]
+	}
+	vNote(fmt.Sprintf("offence %d hold=%v stays=%v: goaway=%v code=%d last=%d started=%d", which, hold, stays, goaway, code, last, started))
+	if goaway {
+		okCode := false
+		for _, c := range codes {
+			okCode = okCode || code == c
+		}
+		vAssert(okCode, "C10.serve.code")
+		vAssert(before == 0 || last >= uint32(2*before-1), "C10.serve.last-stream-id-covers-dispatched")
+		// whatever the pool hands out next is not in a running handler's hands
+		for k := 0; k < 3; k++ {
+			x := ctxPool.Get().(*fasthttp.RequestCtx)
+			for _, r := range running {
+				vAssert(x != r, "C17.serve.context-not-recycled-under-a-running-handler")
+			}
+		}
+		conn.in <- vFrame(0x1, 0x5, 11, vReqBlock('b'))
+		vSettle()
+		vAssert(started == before, "C10.serve.nothing-dispatched-after-a-connection-error")
+	}
+	if !stays || !goaway {
+		close(conn.in) // the peer is gone
+		vSettle()
+	}
+	for range running {
+		gate <- struct{}{}
+	}
+	vSettle()
+	returned := false
+	select {
+	case <-result:
+		returned = true
+	default:
+	}
+	vAssert(returned, "C10.serve.returns-once-the-promised-streams-have-finished")
+	_ = conn.Close()
+	vSettle()
+	vAssert(vLiveTasks() == 0, "C10.serve.no-task-left-behind")
+	vPoolsSane("C10.serve")
+	vCover("C10.serve.goaway-while-running", goaway && hold && stays && returned)
+	vCover("C10.serve.window-by-settings", goaway && which == 7)
+	vCover("C10.serve.data-after-end", goaway && which == 6)
 }
